@@ -35,4 +35,60 @@ SYMS = [
         subst=[(r"sizeof\(BitField\)", "field_bytes"), (r"std::size_t const n", "std::size_t n")],
         doc="packed_dynamic_channel_reference (const): number of bytes get() copies from the data pointer"),
 ]
+# ---- placement: allocate_ / create_view (where the first pixel and the planes are put) and the branch taken by recreate
+PLACE_SUB = [
+    (r"\(\s*unsigned char\s*\*\s*\)", ""), (r"\(\s*std::size_t\s*\)\s*_memory", "_memory"), (r"unsigned char\s*\*\s*tmp\s*=", "tmp ="),
+    (r"typename view_t::x_iterator first;", ""),
+    (r"total_allocated_size_in_bytes\(\s*(?:dims|dimensions)\s*\)", "total_allocated_size_in_bytes(dim_x, dim_y, mstep, b2m, _align_in_bytes, channels)"),
+    (r"get_row_size_in_memunits\(\s*(?:dims|dimensions)\.x\s*\)", "get_row_size_in_memunits(dim_x, mstep, b2m, _align_in_bytes)"),
+    # planar: every plane pointer starts at tmp and is advanced by an expression in the plane index i
+    (r"for \(std::size_t i = 0; i < num_channels<view_t>::value; \+\+i\)\s*\{\s*dynamic_at_c\(first, i\) = \(typename channel_type<view_t>::type\*\)tmp;"
+     r"\s*memunit_advance\(dynamic_at_c\(first, i\), (.*?)\);\s*\}", r"plane_off = \1;"),
+    # _view = view_t(dims, locator(first pixel, row size)): dimensions and row size of the new view
+    (r"_view\s*=\s*view_t\(\s*(dims|dimensions)\s*,\s*typename view_t::locator\(\s*first\s*,\s*(.*?)\s*\)\s*\);", r"view_w = \1.x; view_h = \1.y; loc_row = \2;"),
+    (r"_view\s*=\s*view_t\(\s*(dims|dimensions)\s*,\s*typename view_t::locator\(\s*typename view_t::x_iterator\(\s*tmp\s*\)\s*,\s*(.*?)\s*\)\s*\)\s*;",
+     r"view_w = \1.x; view_h = \1.y; loc_row = \2;"),
+    (r"_memory\s*=\s*_alloc\.allocate\(\s*_allocated_bytes\s*\);", "_memory = alloc_result;"),
+    (r"(?:dims|dimensions)\.x", "dim_x"), (r"(?:dims|dimensions)\.y", "dim_y"),
+]
+GEO = [("dim_x", "std::ptrdiff_t"), ("dim_y", "std::ptrdiff_t"), ("mstep", "std::ptrdiff_t"), ("b2m", "int"), ("_align_in_bytes", SZ), ("channels", SZ)]
+
+def place(anchor, lean, planar, alloc):
+    params = GEO + [("_memory", SZ)] + ([("alloc_result", SZ), ("_allocated_bytes", SZ)] if alloc else []) + \
+             ([("i", SZ), ("plane_off", "std::ptrdiff_t")] if planar else []) + [("tmp", SZ), ("loc_row", "std::ptrdiff_t"), ("view_w", "std::ptrdiff_t"), ("view_h", "std::ptrdiff_t")]
+    outs = (["_allocated_bytes", "_memory"] if alloc else []) + ["tmp"] + (["plane_off"] if planar else []) + ["loc_row", "view_w", "view_h"]
+    return Sym(IMG, anchor, lean, params, outputs=outs, subst=PLACE_SUB,
+               calls={"get_row_size_in_memunits": "row_size_in_memunits", "align": "align",
+                      "total_allocated_size_in_bytes": "total_bytes_planar" if planar else "total_bytes_interleaved"},
+               doc="%s, IsPlanar = %s: %s first pixel address `tmp`%s, the row size handed to the locator and the dimensions of _view" % (
+                   "allocate_" if alloc else "create_view", "true" if planar else "false",
+                   "bytes requested, allocator result kept in _memory, " if alloc else "", ", offset of plane i from it" if planar else ""))
+
+def recreate(anchor, lean, planar, with_alloc):
+    return Sym(IMG, anchor, lean,
+               [("dim_x", "std::ptrdiff_t"), ("dim_y", "std::ptrdiff_t"), ("alignment", SZ), ("view_w", "std::ptrdiff_t"), ("view_h", "std::ptrdiff_t"),
+                ("mstep", "std::ptrdiff_t"), ("b2m", "int"), ("_align_in_bytes", SZ), ("channels", SZ), ("_allocated_bytes", SZ), ("alloc_eq", "bool"), ("branch", "int")],
+               outputs=["_align_in_bytes", "branch"],
+               subst=[(r"dims == _view\.dimensions\(\)", "(dim_x == view_w && dim_y == view_h)"), (r"alloc_in == _alloc", "alloc_eq"),
+                      (r"\)\s*return;", ") { branch = 0; return; }"),
+                      (r"destruct_pixels\(_view\);\s*create_view\(dims, (?:typename )?std::integral_constant<bool, IsPlanar>\(\)\);\s*(?:default_construct_pixels\(_view\)|uninitialized_fill_pixels\(_view, p_in\));", "branch = 1;"),
+                      (r"image tmp\(dims, (?:p_in, )?alignment(?:, alloc_in)?\);\s*swap\(tmp\);", "branch = 2;"),
+                      (r"total_allocated_size_in_bytes\(dims\)", "total_allocated_size_in_bytes(dim_x, dim_y, mstep, b2m, _align_in_bytes, channels)")],
+               calls={"total_allocated_size_in_bytes": "total_bytes_planar" if planar else "total_bytes_interleaved"},
+               doc="image::%s, IsPlanar = %s: new _align_in_bytes and the branch taken -- 0 nothing to do, 1 create_view over the old storage, 2 new image + swap" % (
+                   anchor.replace("\\", "")[5:], "true" if planar else "false"))
+
+REC = [(r"void recreate\(point_t const& dims, std::size_t alignment = 0\)", "dims"),
+       (r"void recreate\(point_t const& dims, const Pixel& p_in, std::size_t alignment = 0\)", "dims_fill"),
+       (r"void recreate\(point_t const& dims, std::size_t alignment, const Alloc alloc_in\)", "dims_alloc"),
+       (r"void recreate\(point_t const& dims, const Pixel& p_in, std::size_t alignment, const Alloc alloc_in\)", "dims_fill_alloc")]
+SYMS += [
+    place(r"void allocate_\(point_t const& dimensions, std::false_type\)", "allocate_interleaved", False, True),
+    place(r"void allocate_\(point_t const& dimensions, std::true_type\)", "allocate_planar", True, True),
+    place(r"void create_view\(point_t const& dims, std::false_type\)", "create_view_interleaved", False, False),
+    place(r"void create_view\(point_t const& dims, std::true_type\)", "create_view_planar", True, False),
+]
+for planar in (False, True):
+    for anchor, tag in REC:
+        SYMS.append(recreate(anchor, "recreate_%s_%s" % (tag, "planar" if planar else "interleaved"), planar, "alloc" in tag))
 NAMESPACE = "GilVerif.Gen.C01"
